@@ -311,6 +311,7 @@ class FuncView(object):
         self._reach()
         self._dom = None
         self._stmt_index = None
+        self._mutated = None
 
     def _reach(self):
         cfg = self.cfg
@@ -399,8 +400,12 @@ class FuncView(object):
                     d = ds[0]
                     if d.node is None:
                         return n      # parameter
-                    if d.value is not None and depth > 0 and (stop is None or not stop(d)):
+                    if d.value is not None and depth > 0 and (stop is None or not stop(d)) \
+                            and not (isinstance(d.value, (ast.List, ast.Dict, ast.Set, ast.ListComp, ast.DictComp))
+                                     and view.is_mutated(n.id)):
                         return view.expand(copy.deepcopy(d.value), d.node, depth - 1, stop, keep)
+                    if view.n_defs(n.id) <= 1:
+                        return n      # the only definition of this name in the function (loop target, container)
                     return ast.copy_location(ast.Name(id='%s@%d' % (n.id, d.node.lineno), ctx=ast.Load()), n)
                 tag = '|'.join(str(d.node.lineno) if d.node is not None else 'p' for d in ds)
                 return ast.copy_location(ast.Name(id='%s@%s' % (n.id, tag), ctx=ast.Load()), n)
@@ -414,6 +419,26 @@ class FuncView(object):
             def visit_ListComp(s, n):
                 return n
         return T().visit(copy.deepcopy(expr))
+
+    def is_mutated(self, name):
+        """the object bound to `name` is changed in place somewhere in the function"""
+        if self._mutated is None:
+            mut = set()
+            for x in ast.walk(self.f.node):
+                if isinstance(x, ast.Call) and isinstance(x.func, ast.Attribute) and isinstance(x.func.value, ast.Name) \
+                        and x.func.attr in ('append', 'extend', 'insert', 'pop', 'remove', 'clear', 'sort', 'reverse',
+                                            'update', 'add', 'discard', 'setdefault', 'popitem'):
+                    mut.add(x.func.value.id)
+                if isinstance(x, (ast.Assign, ast.AugAssign, ast.Delete)):
+                    ts = x.targets if not isinstance(x, ast.AugAssign) else [x.target]
+                    for t in ts:
+                        if isinstance(t, ast.Subscript) and isinstance(t.value, ast.Name):
+                            mut.add(t.value.id)
+            self._mutated = mut
+        return name in self._mutated
+
+    def n_defs(self, name):
+        return len([d for d in self.defs if d.name == name])
 
     def single_def(self, name, stmt):
         ds = self.reaching(name, stmt)
